@@ -415,6 +415,24 @@ type env struct {
 }
 
 func newEnv(r *mon.Run, opts gostatsd.CacheOptions, batch int, script string, tail *rand.Rand) (*env, bool) {
+	return newEnvLim(r, opts, batch, script, tail, nil)
+}
+
+// limiterChoice draws the request limiter of a case from its own PRNG stream: unlimited, or a finite
+// rate with a small burst (1-3 provider calls). One provider call is one request, whatever its batch size.
+func limiterChoice(rng *rand.Rand) (*rate.Limiter, string) {
+	if rng.Intn(2) == 0 {
+		return nil, "unlimited"
+	}
+	b := 1 + rng.Intn(3)
+	rt := []int{500, 2000, 10000}[rng.Intn(3)]
+	return rate.NewLimiter(rate.Limit(rt), b), fmt.Sprintf("%d/s burst %d", rt, b)
+}
+
+func newEnvLim(r *mon.Run, opts gostatsd.CacheOptions, batch int, script string, tail *rand.Rand, lim *rate.Limiter) (*env, bool) {
+	if lim == nil {
+		lim = rate.NewLimiter(rate.Inf, 1)
+	}
 	e := &env{r: r, opts: opts}
 	e.t0m = wallNow()
 	e.mock = clock.NewMock(e.t0m)
@@ -424,7 +442,7 @@ func newEnv(r *mon.Run, opts gostatsd.CacheOptions, batch int, script string, ta
 	e.dr = &drainer{r: r, cnt: map[string]int{}}
 	logger := logrus.New()
 	logger.SetOutput(io.Discard)
-	e.ccp = cloudprovider.NewCachedCloudProvider(logger, rate.NewLimiter(rate.Inf, 1), e.prov, opts)
+	e.ccp = cloudprovider.NewCachedCloudProvider(logger, lim, e.prov, opts)
 	e.wg.Add(2)
 	go func() { defer e.wg.Done(); e.ccp.Run(e.ctx) }()
 	go func() { defer e.wg.Done(); e.dr.run(e.ctx, e.ccp.InfoSource()) }()
@@ -481,14 +499,15 @@ type entry struct {
 
 type seq struct {
 	*env
-	idx    int
-	script string
-	batch  int
-	focus  bool
-	reg    regime
-	rng    *rand.Rand
-	wd     time.Duration
-	pool   []string
+	limName string
+	idx     int
+	script  string
+	batch   int
+	focus   bool
+	reg     regime
+	rng     *rand.Rand
+	wd      time.Duration
+	pool    []string
 
 	entries map[string]*entry
 	exp     map[string]int // expected cumulative provider occurrences (= answers) per source
@@ -509,7 +528,7 @@ func (s *seq) replay() replayCase {
 	return replayCase{Mode: "seq", Index: s.idx, Script: s.script, Batch: s.batch, Regime: s.reg.name, Focus: s.focus, Steps: s.log}
 }
 func (s *seq) header() string {
-	return fmt.Sprintf("provider script %q then full, batch limit %d, options %s %+v", s.script, s.batch, s.reg.name, s.reg.opts)
+	return fmt.Sprintf("provider script %q then full, batch limit %d, request limiter %s, options %s %+v", s.script, s.batch, s.limName, s.reg.name, s.reg.opts)
 }
 func (s *seq) violation(sig, detail string) {
 	s.bad = true
@@ -956,8 +975,10 @@ type caseSpec struct {
 func runSeq(r *mon.Run, idx int, spec caseSpec, wd time.Duration) *seq {
 	rng := r.Rand(fmt.Sprintf("seq-%d", idx))
 	reg := regimes[rng.Intn(len(regimes))]
-	e, ok := newEnv(r, reg.opts, spec.batch, spec.script, nil)
-	s := &seq{env: e, idx: idx, script: spec.script, batch: spec.batch, focus: spec.focused, reg: reg, rng: rng, wd: wd, entries: map[string]*entry{}, exp: map[string]int{}}
+	lim, limName := limiterChoice(r.Rand(fmt.Sprintf("seq-%d-limiter", idx)))
+	e, ok := newEnvLim(r, reg.opts, spec.batch, spec.script, nil, lim)
+	r.Event("cases_with_limiter_"+strings.SplitN(limName, " ", 2)[0], 1)
+	s := &seq{env: e, limName: limName, idx: idx, script: spec.script, batch: spec.batch, focus: spec.focused, reg: reg, rng: rng, wd: wd, entries: map[string]*entry{}, exp: map[string]int{}}
 	defer s.close()
 	if !ok {
 		s.inconclusive = "refresh-ticker-not-created"
@@ -1410,7 +1431,8 @@ func runConc(r *mon.Run, idx int, wd time.Duration) bool {
 	rng := r.Rand(fmt.Sprintf("conc-%d", idx))
 	batch := []int{1, 2, 5, 16}[rng.Intn(4)]
 	reg := regimes[0]
-	e, ok := newEnv(r, reg.opts, batch, "", r.Rand(fmt.Sprintf("conc-%d-provider", idx)))
+	lim, limName := limiterChoice(r.Rand(fmt.Sprintf("conc-%d-limiter", idx)))
+	e, ok := newEnvLim(r, reg.opts, batch, "", r.Rand(fmt.Sprintf("conc-%d-provider", idx)), lim)
 	defer e.close()
 	r.Eval(1)
 	if !ok {
@@ -1424,7 +1446,7 @@ func runConc(r *mon.Run, idx int, wd time.Duration) bool {
 	}
 	nc := 2 + rng.Intn(3)
 	per := 4 + rng.Intn(12)
-	rc := replayCase{Mode: "conc", Index: idx, Batch: batch, Regime: reg.name, Steps: []string{fmt.Sprintf("sources=%d clients=%d submissions-per-client=%d", npool, nc, per)}}
+	rc := replayCase{Mode: "conc", Index: idx, Batch: batch, Regime: reg.name, Steps: []string{fmt.Sprintf("sources=%d clients=%d submissions-per-client=%d request-limiter=%s", npool, nc, per, limName)}}
 
 	subs := make([]map[string]int, nc)
 	var cwg sync.WaitGroup
@@ -1822,6 +1844,186 @@ func runChurn(r *mon.Run, idx int, wd time.Duration) bool {
 }
 
 // ---------------------------------------------------------------------------------------------
+// burst runs: a finite request limiter, provider batch limits above and below its burst, bursts of new
+// sources larger than both
+
+type burstResult struct {
+	progress, detail string
+	inconclusive     string
+	rc               replayCase
+}
+
+func runBurst(r *mon.Run, idx int, wd time.Duration) burstResult {
+	rng := r.Rand(fmt.Sprintf("burst-%d", idx))
+	burst := []int{1, 2, 3, 5, 15}[rng.Intn(5)]
+	batch := []int{1, 2, 5, 16, 32}[rng.Intn(5)]
+	rounds := 2 + rng.Intn(3)
+	sizes := make([]int, rounds)
+	total := 0
+	for i := range sizes {
+		sizes[i] = []int{1, burst, burst + 1, 2*burst + 3, batch + 1, 40}[rng.Intn(6)]
+		total += sizes[i]
+	}
+	// every provider call is one request: pick the rate so that all calls fit into a fraction of a second
+	calls := total
+	if batch > 1 {
+		calls = total/batch + rounds + 1
+	}
+	rt := 200
+	if calls*5 > rt {
+		rt = calls * 5
+	}
+	limName := fmt.Sprintf("%d/s burst %d", rt, burst)
+	res := burstResult{rc: replayCase{Mode: "burst", Index: idx, Batch: batch, Regime: limName, Steps: []string{fmt.Sprintf("bursts of new sources %v", sizes)}}}
+	e, ok := newEnvLim(r, regimes[0].opts, batch, "", r.Rand(fmt.Sprintf("burst-%d-provider", idx)), rate.NewLimiter(rate.Limit(rt), burst))
+	defer e.close()
+	if !ok {
+		res.inconclusive = "refresh-ticker-not-created"
+		return res
+	}
+	desc := fmt.Sprintf("request limiter %s, provider batch limit %d, bursts of new sources %v", limName, batch, sizes)
+	want := map[string]int{}
+	var pool []string
+	next := 0
+	for round, n := range sizes {
+		var srcs []string
+		for i := 0; i < n; i++ {
+			next++
+			srcs = append(srcs, fmt.Sprintf("10.8.%d.%d", next/200, next%200+1))
+		}
+		if round > 0 && rng.Intn(2) == 0 {
+			srcs = append(srcs, pool[rng.Intn(len(pool))]) // and one that is already cached
+		}
+		for _, src := range srcs {
+			if !e.submit(src, wd) {
+				// nobody takes the submission: the lookup dispatcher is gone or stuck
+				res.progress = "never-queried:submission-not-accepted"
+				res.detail = fmt.Sprintf("IpSink does not accept %s (round %d): nothing reads submissions any more\n%s", src, round+1, desc)
+				return res
+			}
+			want[src]++
+		}
+		pool = append(pool, srcs[:n]...)
+		okq := mon.WaitUntil(wd, func() bool {
+			for src, w := range want {
+				if e.prov.occurrences(src) < w || e.dr.count(src) < w {
+					return false
+				}
+			}
+			return true
+		})
+		if !okq {
+			for src, w := range want {
+				if o := e.prov.occurrences(src); o < w {
+					res.progress = "never-queried:after-burst-submission"
+					res.detail = fmt.Sprintf("%s was submitted %d times (round %d of bursts) but appears in %d provider calls\n%s", src, w, round+1, o, desc)
+					return res
+				}
+			}
+			for src, w := range want {
+				if a := e.dr.count(src); a < w {
+					res.progress = "answer-missing"
+					res.detail = fmt.Sprintf("%s was queried %d times but %d answers arrived on InfoSource (round %d of bursts)\n%s", src, w, a, round+1, desc)
+					return res
+				}
+			}
+		}
+	}
+	time.Sleep(15 * time.Millisecond) // observation window for queries / answers nobody asked for
+	wantRes, gotRes := map[string][]string{}, map[string][]string{}
+	model := map[string]*gostatsd.Instance{}
+	present := map[string]bool{}
+	over := 0
+	for _, c := range e.prov.since(0) {
+		if len(c.Ips) > batch {
+			r.Violation("batch-limit-exceeded", fmt.Sprintf("burst run: provider call %d asked for %d sources, limit %d\n%s", c.N, len(c.Ips), batch, desc), res.rc)
+		}
+		if len(c.Ips) > burst {
+			over++
+		}
+		for i, ip := range c.Ips {
+			wantRes[ip] = append(wantRes[ip], instString(c.Results[i]))
+			if !present[ip] || c.Results[i] != nil {
+				model[ip] = c.Results[i]
+			}
+			present[ip] = true
+		}
+	}
+	for _, a := range e.dr.all() {
+		gotRes[a.Src] = append(gotRes[a.Src], instString(a.Inst))
+	}
+	for src, w := range want {
+		if o := e.prov.occurrences(src); o != w {
+			r.Violation("unexpected-provider-query", fmt.Sprintf("burst run: %s was submitted %d times and nothing was past its TTL, but it appears in %d provider calls\n%s", src, w, o, desc), res.rc)
+		}
+	}
+	if d := diffMultisets(wantRes, gotRes); d != "" {
+		r.Violation("answers-differ-from-provider-results", "burst run: "+d+"\n"+desc, res.rc)
+	}
+	pos, neg := 0, 0
+	for src := range want {
+		inst, hit := e.ccp.Peek(gostatsd.Source(src))
+		if model[src] != nil {
+			pos++
+		} else {
+			neg++
+		}
+		switch {
+		case !hit:
+			r.Violation("peek-miss-on-cached-entry", fmt.Sprintf("burst run: Peek(%s) is a miss after its answer was received\n%s", src, desc), res.rc)
+		case model[src] != nil && inst == nil:
+			r.Violation("good-instance-forgotten", fmt.Sprintf("burst run: Peek(%s) is nil, the last successful lookup gave %s\n%s", src, instString(model[src]), desc), res.rc)
+		case !sameInstance(inst, model[src]):
+			r.Violation("peek-wrong-instance", fmt.Sprintf("burst run: Peek(%s)=%s, expected %s\n%s", src, instString(inst), instString(model[src]), desc), res.rc)
+		}
+	}
+	if ems, ok := emission(e.ctx, e.ccp, wd); ok {
+		em := ems[len(ems)-1]
+		if em[gPos] != float64(pos) || em[gNeg] != float64(neg) {
+			which := gPos
+			if em[gPos] == float64(pos) {
+				which = gNeg
+			}
+			r.Violation("gauge-mismatch:"+which, fmt.Sprintf("burst run: cache_positive=%v cache_negative=%v, the cache holds %d positive and %d negative entries\n%s", em[gPos], em[gNeg], pos, neg, desc), res.rc)
+		}
+	}
+	r.Event("burst_runs", 1)
+	r.Event("burst_provider_calls_larger_than_limiter_burst", over)
+	if over > 0 {
+		r.Nontrivial(fmt.Sprintf("burst:limiter-burst=%d:batch=%d:rounds=%d:max-burst-of-sources=%d", burst, batch, rounds, maxInt(sizes)))
+	}
+	return res
+}
+
+func maxInt(l []int) int {
+	m := 0
+	for _, x := range l {
+		if x > m {
+			m = x
+		}
+	}
+	return m
+}
+
+func burstCase(r *mon.Run, idx int) (abort bool) {
+	r.Case("burst %d", idx)
+	res := runBurst(r, idx, 4*time.Second)
+	r.Eval(1)
+	switch {
+	case res.inconclusive != "":
+		r.Inconclusive(res.inconclusive)
+	case res.progress != "":
+		res2 := runBurst(r, idx, 4*time.Second)
+		if res2.progress == res.progress {
+			r.Violation(res.progress, res2.detail+"\n(reproduced twice with a 4 s watchdog each)", res2.rc)
+			return true
+		}
+		r.Inconclusive("watchdog:" + res.progress)
+	}
+	return false
+}
+
+// ---------------------------------------------------------------------------------------------
 // long-hold history: a provider call, and an InfoSource consumer, that take several seconds
 
 type longHoldResult struct {
@@ -2032,7 +2234,7 @@ func seqCase(r *mon.Run, idx int, spec caseSpec) (abort bool) {
 func TestCheck(t *testing.T) {
 	r := mon.Start(t, "C12")
 	defer r.Finish()
-	r.Rule("sequential cases: every provider outcome script over {F full, P partial, E empty, X error, Y error+partial} up to length 2 (quick) / 4 (thorough) crossed with MaxInstancesBatch 1,2,5,16 (plus PRNG scripts of length 3-4 in quick), each wrapped in a PRNG history of 6-17 steps over {submit 1-4 sources incl. duplicates, Peek, refresh tick at an instant chosen in a region between the bracketed idle/TTL boundaries, 3 ms real gap}, cache options drawn from four sets (hours / tens of ms); held cases: batch limit 1 or 2, batch+2..3 resolved sources brought past their TTL in one tick while the provider call that follows is held open by the harness, so refresh lookups queue behind it; during the hold two more resolved sources pass their idle deadline one after the other at further ticks (4 ticks in all incl. the mock's stale deadlines) and must be evicted (Peek miss, gauges) although a lookup is outstanding; after the release every query is answered once (a second enqueue of a source already queued is allowed, not required); churn runs: 40-140 resolved sources, idle period 2-5 ms, 150-400 refresh ticks stamped with the real time while 3-5 Peek readers and 2 re-submitting clients work on the same entries; at quiescence the cache-size gauges must equal what a probe of every source finds (which entries survive is not asserted); one long-hold history per run (a provider call with >= 4 sources held open, and an InfoSource consumer that does not read, for 6-7 s of real time): every source still gets exactly one answer; concurrent cases: 2-4 submitting clients, 2 Peek readers, no-op refresh ticks, emitter, random provider outcomes. Non-trivial: the history contained a failed/empty refresh of a resolved source, a partial result with an absent source, or an eviction; distinct by (script, batch limit, which of these occurred); concurrent runs by (batch, clients, sources, failed-after-good).")
+	r.Rule("sequential cases: every provider outcome script over {F full, P partial, E empty, X error, Y error+partial} up to length 2 (quick) / 4 (thorough) crossed with MaxInstancesBatch 1,2,5,16 (plus PRNG scripts of length 3-4 in quick), each wrapped in a PRNG history of 6-17 steps over {submit 1-4 sources incl. duplicates, Peek, refresh tick at an instant chosen in a region between the bracketed idle/TTL boundaries, 3 ms real gap}, cache options drawn from four sets (hours / tens of ms); held cases: batch limit 1 or 2, batch+2..3 resolved sources brought past their TTL in one tick while the provider call that follows is held open by the harness, so refresh lookups queue behind it; during the hold two more resolved sources pass their idle deadline one after the other at further ticks (4 ticks in all incl. the mock's stale deadlines) and must be evicted (Peek miss, gauges) although a lookup is outstanding; after the release every query is answered once (a second enqueue of a source already queued is allowed, not required); churn runs: 40-140 resolved sources, idle period 2-5 ms, 150-400 refresh ticks stamped with the real time while 3-5 Peek readers and 2 re-submitting clients work on the same entries; at quiescence the cache-size gauges must equal what a probe of every source finds (which entries survive is not asserted); one long-hold history per run (a provider call with >= 4 sources held open, and an InfoSource consumer that does not read, for 6-7 s of real time): every source still gets exactly one answer; burst runs: request limiter with burst 1/2/3/5/15 and a rate that lets all calls through in a fraction of a second, provider batch limit 1/2/5/16/32, 2-4 rounds of 1 / burst / burst+1 / 2*burst+3 / batch+1 / 40 new sources, every source must be queried and answered exactly once (distinct by limiter burst, batch limit, rounds, largest burst; counted when a provider call was larger than the limiter's burst); sequential and concurrent cases draw their limiter (unlimited or 500-10000/s with burst 1-3) from their own PRNG stream; configuration cases: random flag / env / toml / yaml settings of the four cloud-cache-* keys through cmd/gostatsd's setupConfiguration + newCachedInstancesFromViper (overlay runner), refresh ticks at instants derived from the configured text (distinct by the four values and how they were set; counted when the plan contains an eviction or a re-query); concurrent cases: 2-4 submitting clients, 2 Peek readers, no-op refresh ticks, emitter, random provider outcomes. Non-trivial: the history contained a failed/empty refresh of a resolved source, a partial result with an absent source, or an eviction; distinct by (script, batch limit, which of these occurred); concurrent runs by (batch, clients, sources, failed-after-good).")
 	r.Assume("real-clock readings of the provider (expires, lastAccess) lie inside the wall-clock brackets recorded by the harness around the provider call / Peek; the wall clock does not jump during a case")
 	r.Assume("a stats emission is accepted by the Run goroutine only while it is parked in select (non-blocking hand-over), which is used as the barrier for a processed refresh tick")
 
@@ -2049,6 +2251,8 @@ func TestCheck(t *testing.T) {
 			runChurn(r, rc.Index, 10*time.Second)
 		} else if rc.Mode == "longhold" {
 			longHoldCase(r, rc.Index)
+		} else if rc.Mode == "burst" {
+			burstCase(r, rc.Index)
 		} else if rc.Script == "held" {
 			heldCase(r, rc.Index)
 		} else {
@@ -2087,6 +2291,13 @@ func TestCheck(t *testing.T) {
 			return
 		}
 	}
+	for i, n := 0, r.N(48, 640); i < n; i++ {
+		if burstCase(r, i) {
+			r.Extra("aborted_after_progress_violation", 1)
+			return
+		}
+	}
+	configPhase(r, r.N(48, 640))
 	for i, n := 0, r.N(24, 320); i < n; i++ {
 		r.Case("churn %d", i)
 		runChurn(r, i, 10*time.Second)
